@@ -1,5 +1,6 @@
 import Utv.Model.C04Data
 import Utv.Model.C04Ts
+import Utv.Model.C04Iter
 import Utv.Util.J
 /-!
 Line-protocol driver for C04: a scenario (entry point + declaration + options + scripted component
@@ -302,6 +303,20 @@ def handle (j : Json) : Json :=
     | .ok _ => Json.mkObj [("out", "ok"), ("k", Json.num k)]
     | .raise e => Json.mkObj [("out", "raise"), ("info", infoJson e.info)]
     | .diverge => Json.mkObj [("out", "diverge")]
+  | "iter" =>
+    let f : Iter.Flags := { noExplicitCast := bool! (fld j "nec"), noDataLoss := bool! (fld j "ndl"),
+                            legacyDatetime := bool! (fld j "legacy_dt") }
+    let k : Iter.InKind := match str! (fld j "in_kind") with
+      | "sized" => .sized (nat! (fld j "n")) | "lazy" => .lazy | "iterable" => .iterable
+      | "getitem" => .getitem | "text" => .text | _ => .scalar
+    let t : Iter.Target := match str! (fld j "target") with
+      | "int" => .scalar .int | "float" => .scalar .float | "str" => .scalar .str | "bytes" => .scalar .bytes
+      | "Decimal" => .scalar .decimal | "complex" => .scalar .complex | "bool" => .scalar .bool
+      | "datetime" => .scalar .datetime | "date" => .scalar .date | "time" => .scalar .time
+      | "timedelta" => .scalar .timedelta | "UUID" => .scalar .uuid
+      | "dict" => .mapping | "dataclass" => .dataclass
+      | a => .array (a == "list" && str! (fld j "in_kind") == "sized")
+    Json.mkObj [("consumes", Json.bool (Iter.consumes f t k))]
   | _ => Json.mkObj [("skip", Json.bool true)]
 
 def main : IO Unit := serve handle
